@@ -16,14 +16,14 @@ from vlib import log
 
 FAM = {
     "fmt_container": dict(derives=["Display", "Debug"], item="{A} struct S<T, U>(core::marker::PhantomData<(T, U)>);", name="{n}", atoms={
-        "lit": '("x")', "lit_b": '("y")', "bound_T": "(bound(T: Clone))", "bounds_T": "(bounds(T: Clone))",
+        "lit": '("x")', "lit_comma": '("x",)', "lit_b": '("y")', "bound_T": "(bound(T: Clone))", "bounds_T": "(bounds(T: Clone))",
         "bound_U": "(bound(U: Copy))", "bound_TU": "(bound(T: Clone, U: Copy))", "legacy_fmt": '(fmt = "x")', "legacy_bound": '(bound = "T: Clone")',
         "unknown": "(frobnicate)"}),
     "fmt_enum": dict(derives=["Display"], item="{A} enum S {{ FooBar, Baz }}", name="display", atoms={
         "lit": '("x")', "lit_wrap": '("<{_variant}>")', "rename_snake": '(rename_all = "snake_case")', "rename_snake2": '(rename_all = "snake_case")',
         "rename_kebab": '(rename_all = "kebab-case")', "rename_bad": '(rename_all = "bogus_case")', "unknown": "(frobnicate)"}),
     "debug_field": dict(derives=["Debug"], item="struct S {{ {A} a: i32, b: u8 }}", name="debug", atoms={
-        "skip": "(skip)", "ignore": "(ignore)", "lit": '("{a}")', "unknown": "(frobnicate)"}),
+        "skip": "(skip)", "ignore": "(ignore)", "lit": '("{a}")', "lit_comma": '("{a}",)', "unknown": "(frobnicate)"}),
     "debug_field_cfmt": dict(derives=["Debug"], item='#[debug("x")] struct S {{ {A} a: i32, b: u8 }}', name="debug", atoms={
         "skip": "(skip)", "ignore": "(ignore)", "lit": '("{a}")', "unknown": "(frobnicate)", "legacy_fmt": '(fmt = "x")'}),
     "debug_field_vfmt": dict(derives=["Debug"], item='enum S {{ #[debug("x")] V {{ {A} a: i32, b: u8 }}, W }}', name="debug", atoms={
